@@ -95,8 +95,11 @@ ScanResult Theo::scan(std::map<FileName, FileContent> files, FileName main) {
     }
     res.push_back(t);
   }
-  res.push_back(
-      Theo::Token{Theo::Token::T_EOF, "EOF", res.back().file, res.back().line});
+  // the EOF token takes its position from the last scanned token, or the
+  // "-" placeholder when nothing could be scanned (e.g. missing main file)
+  std::string eof_file = res.empty() ? "-" : res.back().file;
+  int eof_line = res.empty() ? -1 : res.back().line;
+  res.push_back(Theo::Token{Theo::Token::T_EOF, "EOF", eof_file, eof_line});
   return {res, errors};
 }
 
